@@ -83,6 +83,28 @@ class Prog:
         n = r.randrange(1, max(2, budget))
         for _ in range(n):
             k = r.randrange(100)
+            if r.randrange(9) == 0 and nest < 3:
+                # an UNBRACED single-statement body: every PT_* macro must be one statement
+                one = self.single(depth, call_safe)
+                if one is not None:
+                    shape = r.randrange(3)
+                    if shape == 0:
+                        out.append("if (%s)" % self.cond(call_safe))
+                        out.append("\t" + one)
+                        if r.randrange(2):
+                            other = self.single(depth, call_safe)
+                            if other is not None:
+                                out.append("else")
+                                out.append("\t" + other)
+                    elif shape == 1 and loopn < 3:
+                        lc = "c->lc[%d][%d]" % (depth, loopn)
+                        out.append("for (%s = 0; %s < %d; %s++)" % (lc, lc, r.randrange(1, 4), lc))
+                        out.append("\t" + one)
+                    else:
+                        out.append("if (!%s)" % self.cond(call_safe))
+                        out.append("\t" + one)
+                    out.append("T(c, %d);" % self.newtag())
+                    continue
             if k < 22:
                 out += self.effect()
             elif k < 34:
@@ -135,6 +157,28 @@ class Prog:
             else:
                 out += self.effect()
         return out
+
+    def single(self, depth, call_safe):
+        """one statement consisting of a single PT_* macro (for unbraced bodies)"""
+        r = self.rng
+        k = r.randrange(8)
+        if k == 0:
+            return "PT_YIELD();"
+        if k == 1:
+            return "PT_WAIT();"
+        if k == 2 and not call_safe:
+            return "PT_WAIT_UNTIL(%s);" % self.env_cond()
+        if k == 3:
+            return "PT_EXIT_ON(%s);" % self.cond(call_safe)
+        if k == 4:
+            return "PT_FAIL_ON(%s);" % self.cond(call_safe)
+        if depth < 3:
+            if k == 5:
+                return "PT_SPAWN(&c->pt[%d], FN(%s)(c));" % (depth + 1, self.func(depth + 1, call_safe))
+            if k == 6:
+                return "PT_SPAWN_AND_CHECK(&c->pt[%d], FN(%s)(c));" % (depth + 1, self.func(depth + 1, call_safe))
+            return "PT_CALL(&c->pt[%d], FN(%s)(c));" % (depth + 1, self.func(depth + 1, True))
+        return "PT_YIELD();"
 
     def func(self, depth, call_safe):
         name = "p%d_f%d" % (self.pid, self.nfunc)
